@@ -81,7 +81,7 @@ CLAIMED.update({
     'C08': dict(
         text='Tier 1: C08_literals_extracted + C08_literal_contents_opaque(_for_the_parse) (a well-formed quoted string IS cut out and its contents never reach the rest of the parser: replacing literal contents leaves the format expression and the parse unchanged), C08_literals_reassemble / C08_literals_roundtrip (literals cut out and put back verbatim for every query without the marker text; counterexample theorem for the marker); tier 2: C08_keyword_case (keyword location depends only on the '
              'lower-cased text), blank/comment lines, indentation, trailing semicolons, join synonyms, C08_on_clause_spelling (= vs ==, spacing, case of on/and), C08_redundant_from_a / C08_redundant_update_a, C08_keyword_case_and_clause_order (case of every keyword through the whole of separate_actions); tier 3: C08_clause_order (ANY permutation of the clauses after SELECT/UPDATE parses to the same dictionary of actions and the same error, for all quiet clause bodies, at most one clause per statement group) and C08_clause_actions (the action of a clause depends only on its statement and body). The shallow parser functions (literal scanner = the real regex on ALL strings <= 8-10 over {quote,dquote,backslash,a}, cleanup, redundant table name, '
-             'separate_actions, join expression, whole pipeline) are tied to the Lean Parse model, and respelled queries (case, clause order, layout, synonyms, hostile literal contents) are run through the real engine against the model result of the abstract query.',
+             'separate_actions, join expression, whole pipeline) are tied to the Lean Parse model, and respelled queries (case, clause order, layout, synonyms, hostile literal contents composed from keyword/metacharacter sequences) are run through the real Python AND rbql-js engines against the model result of the abstract query; the rbql.js twins of separate_actions / parse_join_expression (spaces-only strip, SET without trailing space, &&, assertion for SELECT+UPDATE) are modelled in Model/ParseJs.lean and tied on the same texts.',
         note='Hypothesis of tier 3: no space-separated token of a clause body starts (case-insensitively) with a reserved word (sufficient, not necessary; literals are cut out before this stage). The scanners replacing the regular expressions are tied to Python re, not proved equal to it.',
         ref='DESIGN.md section 7, C08'),
     'C09': dict(
